@@ -17,6 +17,8 @@ const (
 	kOpenNoent   = "OPEN_NOENT"
 	kOpenConfirm = "OPEN_CONFIRM"
 	kClose       = "CLOSE"
+	kCloseOld    = "CLOSE_OLD_STATEID" // in-order seqid, superseded state ID: fails, seqid consumed, reply cached
+	kCloseBad    = "CLOSE_BAD_STATEID" // in-order seqid, future state ID: fails, seqid NOT consumed (RFC 7530 9.1.7)
 	kDowngrade   = "OPEN_DOWNGRADE"
 	kLockNew     = "LOCK_NEW"
 	kLock        = "LOCK"
@@ -109,7 +111,7 @@ func (op *op40) String() string {
 	switch op.kind {
 	case kOpen, kOpenNoent:
 		s += fmt.Sprintf(" access=%d create=%v seq=%d", op.access, op.create, op.seq)
-	case kOpenConfirm, kClose:
+	case kOpenConfirm, kClose, kCloseOld, kCloseBad:
 		s += fmt.Sprintf(" seq=%d sid=%s", op.seq, stateidString(op.stateid))
 	case kDowngrade:
 		s += fmt.Sprintf(" to=%d seq=%d sid=%s", op.access, op.seq, stateidString(op.stateid))
@@ -161,7 +163,7 @@ func (v *v40) build(op *op40) []byte {
 		}
 	case kOpenConfirm:
 		ops = []nfsv4.NfsArgop4{opPutFH(op.fh), &nfsv4.NfsArgop4_OP_OPEN_CONFIRM{OpopenConfirm: nfsv4.OpenConfirm4args{OpenStateid: op.stateid, Seqid: op.seq}}}
-	case kClose:
+	case kClose, kCloseOld, kCloseBad:
 		ops = []nfsv4.NfsArgop4{opPutFH(op.fh), &nfsv4.NfsArgop4_OP_CLOSE{Opclose: nfsv4.Close4args{Seqid: op.seq, OpenStateid: op.stateid}}}
 	case kDowngrade:
 		ops = []nfsv4.NfsArgop4{opPutFH(op.fh), &nfsv4.NfsArgop4_OP_OPEN_DOWNGRADE{OpopenDowngrade: nfsv4.OpenDowngrade4args{OpenStateid: op.stateid, Seqid: op.seq, ShareAccess: op.access, ShareDeny: nfsv4.OPEN4_SHARE_DENY_NONE}}}
@@ -337,6 +339,18 @@ func (v *v40) next(o *oo40) *op40 {
 		cands = append(cands, cand{3, func() *op40 {
 			return &op40{kind: kClose, o: o, of: of, fname: of.fname, fh: of.fh, seq: o.seq + 1, stateid: of.stateid, want: nfsv4.NFS4_OK}
 		}})
+		if of.stateid.Seqid >= 2 {
+			cands = append(cands, cand{1, func() *op40 {
+				sid := of.stateid
+				sid.Seqid--
+				return &op40{kind: kCloseOld, o: o, of: of, fname: of.fname, fh: of.fh, seq: o.seq + 1, stateid: sid, want: nfsv4.NFS4ERR_OLD_STATEID}
+			}})
+		}
+		cands = append(cands, cand{1, func() *op40 {
+			sid := of.stateid
+			sid.Seqid += 7
+			return &op40{kind: kCloseBad, o: o, of: of, fname: of.fname, fh: of.fh, seq: o.seq + 1, stateid: sid, want: nfsv4.NFS4ERR_BAD_STATEID}
+		}})
 		if of.access == nfsv4.OPEN4_SHARE_ACCESS_BOTH {
 			cands = append(cands, cand{2, func() *op40 {
 				to := uint32(nfsv4.OPEN4_SHARE_ACCESS_READ)
@@ -487,8 +501,11 @@ func (v *v40) apply(op *op40, res *nfsv4.Compound4res) bool {
 		if !o.confirmed {
 			o.pending = of
 		}
-	case kOpenNoent:
+	case kOpenNoent, kCloseOld:
 		o.seq = op.seq
+	case kCloseBad:
+		// NFS4ERR_BAD_STATEID does not consume the seqid: the next
+		// request of this owner uses the same one again.
 	case kOpenConfirm:
 		o.seq = op.seq
 		o.confirmed = true
@@ -609,6 +626,28 @@ func (v *v40) runTracked(op *op40, allowDup bool) {
 		return
 	}
 	if !v.apply(op, p.res) {
+		return
+	}
+	if op.kind == kCloseBad {
+		// Nothing is cached for this request. Sending it again is a
+		// new execution that must fail the same way, again without
+		// consuming the seqid or touching anything.
+		*h = retx{probed: "bad-stateid-request"}
+		if allowDup && v.rng.IntN(2) == 0 {
+			before := v.fingerprint()
+			p2, ok := v.send(req, "RESEND "+op.String())
+			if !ok || v.abort {
+				return
+			}
+			v.dups++
+			after := v.fingerprint()
+			v.sit("resend-unconsumed-seqid-40")
+			if !bytes.Equal(p2.enc, p.enc) || before != after {
+				v.violate("C19 resend-of-unconsumed-seqid-differs v=4.0 op="+op.kind,
+					fmt.Sprintf("%s failed with %s, which does not consume the seqid; sending it again returned %s / changed state=%v", op, statusName(st), statusName(p2.res.Status), before != after),
+					map[string]any{"before": before, "after": after})
+			}
+		}
 		return
 	}
 	*h = retx{op: op, req: req, reply: p.enc, status: st, present: true}
